@@ -245,7 +245,7 @@ fn hot_reloading_thread(
 
     let mut select = channel::Select::new();
     select.recv(&cache_msg);
-    select.recv(&events);
+    let events_index = select.recv(&events);
 
     'thread: loop {
         // We don't use `select` method here as we always want to check
@@ -275,7 +275,7 @@ fn hot_reloading_thread(
             }
         }
 
-        if ready == 1 {
+        if ready == events_index {
             match events.try_recv() {
                 #[cfg(assets_manager_verif)]
                 Ok(msg) => {
@@ -285,8 +285,10 @@ fn hot_reloading_thread(
                 #[cfg(not(assets_manager_verif))]
                 Ok(msg) => cache.handle_events(msg),
                 Err(crossbeam_channel::TryRecvError::Empty) => (),
-                // We won't receive events anymore, we can stop now
-                Err(crossbeam_channel::TryRecvError::Disconnected) => break,
+                // We won't receive events anymore. The cache may still send
+                // requests, and a caller of `hot_reload` waits for its answer,
+                // so keep serving them (until the cache itself goes away).
+                Err(crossbeam_channel::TryRecvError::Disconnected) => select.remove(events_index),
             }
         }
     }
